@@ -578,6 +578,48 @@ def attribute_cases():
     return out
 
 
+def identifier_shape_cases():
+    """Seed-independent: identifier shapes the tokenizer accepts (trailing and doubled underscores, digits) in
+    every naming position that the compiler converts between cases."""
+    out = []
+    snakes = ["a_", "a__b", "a_1", "a1_", "x__", "aa_bb_", "a_b_c__", "a9"]
+    shouts = ["AA_", "A__B", "A_1_", "AA9", "A_B__", "A1"]
+    for nm in snakes:
+        out.append(("identifier:field", "struct Foo:\n  0 [+1]  UInt  %s\n  let z = %s + 1\n" % (nm, nm)))
+        out.append(("identifier:virtual", "struct Foo:\n  0 [+1]  UInt  x\n  let %s = x + 1\n" % nm))
+        out.append(("identifier:parameter", "struct Foo(%s: UInt:8):\n  0 [+1]  UInt  x\n  let z = %s + x\n" % (nm, nm)))
+        out.append(("identifier:inline-enum", "struct Foo:\n  0 [+1]  enum  %s:\n    AA = 0\n    BB = 1\n  1 [+1]  UInt  y\n" % nm))
+        out.append(("identifier:inline-bits", "struct Foo:\n  0 [+1]  bits  %s:\n    0 [+3]  UInt  lo\n    3 [+5]  UInt  hi\n" % nm))
+        out.append(("identifier:inline-struct", "struct Foo:\n  0 [+2]  struct  %s:\n    0 [+1]  UInt  lo\n    1 [+1]  UInt  hi\n" % nm))
+        out.append(("identifier:abbreviation", "struct Foo:\n  0 [+1]  UInt  long_name (%s)\n  let z = %s + 1\n" % (nm, nm)))
+        out.append(("identifier:import-alias", 'import "testdata/imported.emb" as %s\nstruct Foo:\n  0 [+4]  %s.Inner  y\n' % (nm, nm)))
+    for nm in shouts:
+        for case in ('', '  [(cpp) $default enum_case: "kCamelCase"]\n', '  [(cpp) $default enum_case: "SHOUTY_CASE, kCamelCase"]\n'):
+            out.append(("identifier:enum-value", "enum Ee:\n%s  %s = 1\n  OK = 2\nstruct Foo:\n  0 [+1]  Ee  x\n  let y = x == Ee.%s\n"
+                        % (case, nm, nm)))
+            out.append(("identifier:enum-value-attr", 'enum Ee:\n  %s = 1\n    [(cpp) enum_case: "kCamelCase"]\nstruct Foo:\n  0 [+1]  Ee  x\n' % nm))
+    return out
+
+
+def wide_range_cases():
+    """Seed-independent: field locations and expressions over 64-bit fields whose ranges leave the 64-bit types,
+    written by the user and synthesized from what the user wrote ($next, $size_in_bytes, field ends): every such
+    error must carry a position inside the user's file."""
+    out = []
+    starts = ["0", "16", "a", "a + b", "a * 2", "a - b", "$next"]
+    sizes = ["1", "8", "b", "a + b", "b * 8", "a * b"]
+    for st in starts:
+        for sz in sizes:
+            for tail in ("  $next [+1]  UInt  chk\n", "  $next + a [+1]  UInt  chk\n", "  let e = $size_in_bytes + a\n", ""):
+                out.append(("wide-range:start=%s" % st,
+                            '[$default byte_order: "LittleEndian"]\nstruct Foo:\n  0 [+8]  UInt  a\n  8 [+8]  UInt  b\n'
+                            '  %s [+%s]  UInt:8[]  payload\n%s' % (st, sz, tail)))
+    for e in ["a + b", "a * b", "a - b", "0 - a", "a + 1", "a * 2 - b", "$max(a, b) + 1", "(a == b ? a : b) + b", "a + s", "s - a", "s * 2"]:
+        out.append(("wide-range:let", '[$default byte_order: "LittleEndian"]\nstruct Foo:\n  0 [+8]  UInt  a\n  8 [+8]  UInt  b\n'
+                    '  16 [+8]  Int  s\n  let e = %s\n  if %s > 0:\n    24 [+1]  UInt  t\n' % (e, e)))
+    return out
+
+
 def cross_file_cases():
     """Seed-independent: every diagnostic whose notes point into ANOTHER file (an imported module or the
     prelude).  The named file and the position must belong together."""
